@@ -20,11 +20,11 @@ PARTIAL: that an edge mesh is a closed cylinder running from start to end is geo
 -/
 import ScadVerif.Lemmas.PtReal
 import ScadVerif.Model.Viewer
+import ScadVerif.Props.C04
 set_option linter.unusedSectionVars false
 namespace ScadVerif.C18
 open ScadVerif ScadVerif.Viewer ScadVerif.Parts
 
-noncomputable instance : HasTrunc ℝ := ⟨fun x => ⌊x⌋₊⟩
 
 /-- after any `add_*` call the viewer has a scene -/
 theorem push_some (st : State ℝ) (s : Scad ℝ) : (push st s).scad.isSome = true := by simp [push]
@@ -255,5 +255,24 @@ theorem addLines3d_item (st st' : State ℝ) (es : List (Pt3 ℝ × Pt3 ℝ)) (c
   injection h with h; subst h
   refine ⟨ms, hm, ?_, by cases h : st.scad <;> simp [pushGroup, withGroup, colorA, h]⟩
   exact mapM_length _ es ms hm
+
+/-- **every edge mesh is a closed surface with valid indices**: it is a cylinder (C04
+`cylinder_closed`, unconditional) moved by a matrix and a translation, which leave the faces
+untouched -/
+theorem edgeMesh_closed (st : State ℝ) (hr : 0 < st.edgeRadius) (a b : Pt3 ℝ) (s : Scad ℝ)
+    (h : edgeMesh st a b = some s) :
+    ∃ pts faces, s = Scad.node (.polyhedron pts faces 1) [] ∧
+      MeshLemmas.EdgeClosed (Spec.allEdges faces) ∧
+      ∀ f ∈ faces, (∀ v ∈ f, v < pts.length) ∧ (f.length = 3 ∨ f.length = 4) := by
+  unfold edgeMesh at h
+  simp only [Option.bind_eq_bind, Option.pure_def] at h
+  obtain ⟨c, hc, h⟩ := bind_some h
+  injection h with h; subst h
+  refine ⟨_, _, rfl, ?_, ?_⟩
+  · exact C04.cylinder_closed _ _ hr _ c hc
+  · have hv := C04.cylinder_valid _ _ _ c hc
+    intro f hf
+    have := hv f hf
+    simpa [Dim3.Polyhedron.translate, Dim3.Polyhedron.applyMatrix, Pt3s.translate, Mt4.applyMatrix] using this
 
 end ScadVerif.C18
